@@ -385,7 +385,12 @@ def gen_model(rng, max_records=40, max_payload=None, tier='quick'):
         else:
             total = rng.randrange(1, max(2, cap))
         total = min(total, cap)
-        if style == 'tiny':
+        shredded = r == 0 and rng.chance(0.012)
+        if shredded:
+            # one long record cut into more than a thousand minimal segments (a logical record may span any number of visible
+            # records; 1024 is only how many minimal segments ONE visible record can hold)
+            style, total = 'tiny', rng.randrange(19000, 30000) & ~1
+        if style == 'tiny' and not shredded:
             total = min(total, 400)
         if style == 'many':
             total = min(total, 6000)
